@@ -515,6 +515,50 @@ func TestKnown_C03_CancelledRunKeepsClaim(t *testing.T) {
 	}
 }
 
+// C07+C12.loops_bound_to_the_term@becomeLeader: the heartbeat loop runs on the election context and leaves a
+// term only at its own next tick. Re-elected within one interval, the instance has two loops in its new term: each
+// refreshes with the revision the other is about to replace, and the loser takes "revision mismatch" for a
+// takeover and deposes the healthy leader.
+func TestKnown_C07_LeftoverHeartbeatLoopDeposesNextTerm(t *testing.T) {
+	e, kv := kElection(t, kCfg()) // H = 200ms
+	var d atomic.Int32
+	e.OnDemote(func() { d.Add(1) })
+	kLeader(t, e)
+	// store latency 80ms (< H/2) on refreshes
+	kv.SetUpdateFunc(func(key string, value []byte, rev uint64, opts ...natsmock.KVOption) (uint64, error) {
+		time.Sleep(80 * time.Millisecond)
+		kv.SetUpdateFunc(nil)
+		r, err := kv.Update(key, value, rev)
+		kvSlow(kv)
+		return r, err
+	})
+	kvSlow = func(k *natsmock.MockKeyValue) {
+		k.SetUpdateFunc(func(key string, value []byte, rev uint64, opts ...natsmock.KVOption) (uint64, error) {
+			time.Sleep(80 * time.Millisecond)
+			k.SetUpdateFunc(nil)
+			r, err := k.Update(key, value, rev)
+			kvSlow(k)
+			return r, err
+		})
+	}
+	// term 1 ends through the validation path (its heartbeat loop notices only at its next tick) ...
+	e.handleValidationFailure(errors.New("validation"))
+	// ... the record goes away and the same instance wins the key again well within one interval
+	_ = kv.Delete("g")
+	if err := e.attemptAcquire(); err != nil {
+		t.Fatalf("re-acquisition failed: %v", err)
+	}
+	base := d.Load()
+	time.Sleep(1500 * time.Millisecond) // fault-free from here on: several intervals
+	lead, dem := e.IsLeader(), d.Load()-base
+	e.Stop()
+	if !lead || dem != 0 {
+		t.Fatalf("VIOLATION-REPRODUCED: fault-free second term (store latency 80ms, H=200ms): IsLeader=%v after 1.5s, demotions during the term=%d", lead, dem)
+	}
+}
+
+var kvSlow func(k *natsmock.MockKeyValue)
+
 // storepolicy(leaderID).leader_consistent_id: follower-side code overwrites leaderID outside the
 // mutex after an unlocked IsLeader() check; a promotion that lands in between leaves a leader
 // whose Status() names another instance.
